@@ -26,3 +26,14 @@ def run(ctx):
         codecs20.search(ctx)
         from .. import querycamp     # count / position / end-of-data clauses of reads with non-audio calls in between
         querycamp.run(ctx, "C05", parts=("r",))
+        from .. import c15wrap       # (round 8) whole frames under a short transfer that ends inside a frame: all 18 wrappers
+        wprobs, wcorr = c15wrap.run(ctx)
+        for (nm, text, sc) in wprobs[:4]:
+            ctx.violation("c05-wrapper-" + nm.replace("|", "-"),
+                          "# C05 violated on the implementation's own transcript (a read / write call returns a whole number of frames, the position advances by exactly that; "
+                          "one byte short inside a frame): %s\n# case %s (file|side|caller type|i=items f=frames b=raw bytes)\n--- script\n%s" % (text, nm, sc))
+        if wcorr and not wprobs:
+            nm, k, a, b, sc = wcorr[0]
+            ctx.violation("c05-wrapper-correspondence-" + nm.replace("|", "-"),
+                          "# Sf.Faults (wholeFrames) and the implementation disagree on the wrapper matrix: %d scripts; first %s line %d\n# implementation: %s\n# model:          %s\n--- script\n%s"
+                          % (len(wcorr), nm, k, a[:300], b[:300], sc), no_input=True)
